@@ -88,6 +88,10 @@ func genC12(t *rapid.T) C12Case {
 	n := rapid.IntRange(1, 40).Draw(t, "len")
 	c := C12Case{Ser: rapid.Bool().Draw(t, "ser")}
 	for i := 0; i < n; i++ {
+		if i > 0 && rapid.IntRange(0, 2).Draw(t, "repeat") == 0 {
+			c.Seq = append(c.Seq, c.Seq[i-1]) // runs of the same envelope fill the one-slot queues
+			continue
+		}
 		c.Seq = append(c.Seq, C12Sym{Shape: rapid.IntRange(0, len(al)-1).Draw(t, "shape"), ID: uint64(rapid.IntRange(1, 2).Draw(t, "id"))})
 	}
 	return c
